@@ -452,6 +452,35 @@ pub fn gen_doc(rng: &mut Rng) -> Doc {
                 cands.push(Cand { ep: vec![(f.name.clone(), None), (g.name.clone(), None)], count: f.card.unwrap_or(1) * g.card.unwrap_or(1), key, local: false });
             }
         }
+        // endpoints two submodule levels down (`child/grandchild/gate`), through own, non-generic fields only and
+        // always pinned to single instances; the grandchild's gate must not be connected from the child's level
+        for (f, t) in &own_subs {
+            let concrete = subs.iter().any(|sd| sd.field.name == f.name && sd.typ == format!("M{t}") && sd.args.is_empty());
+            if !concrete || info.generic[*t] {
+                continue;
+            }
+            for (gf, gt) in &eff_subs[*t] {
+                if info.generic[*gt] || !rng.chance(1, 3) {
+                    continue;
+                }
+                for g in &info.gates[*gt] {
+                    let inner_key = format!("{}/{}", gf.name, g.name);
+                    if info.child_used[*t].contains(&inner_key) {
+                        continue;
+                    }
+                    let key = format!("{}/{}/{}", f.name, gf.name, g.name);
+                    if info.child_used[i].contains(&key) {
+                        continue;
+                    }
+                    let ep: Endpoint = vec![
+                        (f.name.clone(), f.card.map(|n| rng.usize_below(n))),
+                        (gf.name.clone(), gf.card.map(|n| rng.usize_below(n))),
+                        (g.name.clone(), g.card.map(|n| rng.usize_below(n))),
+                    ];
+                    cands.push(Cand { ep, count: 1, key, local: false });
+                }
+            }
+        }
         rng.shuffle(&mut cands);
         let mut used: BTreeSet<String> = BTreeSet::new();
         for _ in 0..rng.usize_below(4) {
@@ -493,8 +522,12 @@ pub fn gen_doc(rng: &mut Rng) -> Doc {
                         ep[last].1 = Some(rng.usize_below(n));
                     }
                 };
-                pin(&mut pa, ea.local, rng);
-                pin(&mut pb, eb.local, rng);
+                if pa.len() < 3 {
+                    pin(&mut pa, ea.local, rng);
+                }
+                if pb.len() < 3 {
+                    pin(&mut pb, eb.local, rng);
+                }
             }
             used.insert(ea.key.clone());
             used.insert(eb.key.clone());
@@ -911,6 +944,9 @@ pub fn cmd(args: &Args) -> Report {
         }
         if want.conns.iter().any(|c| c.2.is_some()) {
             rep.count("documents_with_links", 1);
+        }
+        if doc.modules.iter().any(|m| m.conns.iter().any(|c| c.a.len() >= 3 || c.b.len() >= 3)) {
+            rep.count("documents_with_two_level_endpoints", 1);
         }
         if findings.is_empty() && want.modules.len() >= 3 && !want.conns.is_empty() {
             rep.nontrivial(doc_hash(&doc));
